@@ -51,12 +51,12 @@ def cases(draw):
         "bias": draw(st.booleans()),
         "mode": draw(st.sampled_from(["exact", "real"])),
         "entry": draw(st.sampled_from(["linear", "linear", "linear", "matmul", "mm", "mm_other_axis0", "bmm", "op", "routes"])),
-        "layout": draw(st.sampled_from(["contig", "contig", "transposed", "sliced", "expanded"])),
+        "layout": draw(st.sampled_from(["contig", "contig", "transposed", "sliced", "expanded", "offset"])),
         "ascale": draw(st.sampled_from(["absmax", "saturating", "drawn"])),
         "group": draw(st.integers(0, 3)),
         "per_tensor_w": draw(st.integers(0, 5)) == 0,
         "act_axis": draw(st.sampled_from([None, None, None, None, 0, -1])),  # quantized activations may also be per-axis
-        "wlayout": draw(st.sampled_from(["contig", "contig", "colmajor", "expanded"])),
+        "wlayout": draw(st.sampled_from(["contig", "contig", "colmajor", "expanded", "tied"])),
         "sign": draw(st.sampled_from(["mixed", "mixed", "one-sided"])),
         "w_axis": draw(st.sampled_from([0, 0, 0, -1])),  # 8-bit weights quantized along the input features (real mode)
         "seed": draw(st.integers(0, 2**20)),
@@ -103,6 +103,12 @@ def lay_out(x, layout):
         big = torch.zeros((x.shape[0] * 2,) + tuple(x.shape[1:]), dtype=x.dtype)
         big[::2] = x
         return big[::2]
+    if layout == "offset":
+        # a CONTIGUOUS tensor that starts a few elements into a larger buffer: its address is not aligned on 16/32/64 bytes
+        off = [1, 2, 4, 8][x.numel() % 4]
+        buf = torch.zeros(x.numel() + off, dtype=x.dtype)
+        buf[off:] = x.reshape(-1)
+        return buf[off:].view(x.shape)
     return x
 
 
@@ -218,6 +224,10 @@ def _build(case):
     wf = gen.clamp_finite(wr * 0.3 * rowf, dtype)
     if wqt.bits == 8 and (case["entry"] == "bmm" or case["per_tensor_w"]):
         w = wexpand(SymmetricQuantizer.apply(wsrc(wf, case), wqt, None, absmax_scale(wf, wqt)), case)
+    elif wqt.bits == 8 and case.get("wlayout") == "tied" and K > 1 and N > 1:
+        # tied / Conv1D-style weights: the (in, out) matrix was quantized along ITS first axis and is used transposed, so the
+        # scales run along the contraction dimension of the linear (the axis is whatever t() declares)
+        w = quantize_weight(wf.t().contiguous(), wqt, 0).t()
     elif wqt.bits == 8:
         w = quantize_weight(wsrc(wf, case), wqt, -1 if case.get("w_axis") == -1 and N > 1 else 0)
     else:
@@ -420,9 +430,13 @@ def run_grid(ctx):
                             if entry == "linear" and wq not in ("qint4", "qint2"):
                                 # the kernels behind 8-bit weights read the activations' strides: every size triple in every layout
                                 # (a one-row batch transposed has a size-1 dim with a non-canonical stride and still "is contiguous")
-                                for lay in ("transposed", "sliced"):
+                                for lay in ("transposed", "sliced", "offset"):
                                     cs.append({"dtype": dt, "act": act, "wq": wq, "rows": r, "brank": 1 + (n % 2), "inf": k, "outf": n, "bias": (r + n) % 2 == 0, "mode": "exact",
                                                "entry": "linear", "layout": lay, "ascale": "absmax", "group": 0, "per_tensor_w": ptw, "seed": ctx.seed * 1000 + r + 7 * k + 13 * n + 2})
+                            if entry == "linear" and wq not in ("qint4", "qint2") and not ptw and k > 1 and n > 1:
+                                # weights quantized as an (in, out) matrix and used transposed (tied embeddings, Conv1D checkpoints)
+                                cs.append({"dtype": dt, "act": act, "wq": wq, "rows": r, "brank": 1 + (r % 2), "inf": k, "outf": n, "bias": (r + k) % 2 == 0, "mode": "real", "entry": "linear",
+                                           "layout": "contig", "ascale": "absmax", "group": 0, "per_tensor_w": False, "wlayout": "tied", "sign": "mixed", "seed": ctx.seed * 1000 + r + 7 * k + 13 * n + 5})
                             if entry == "linear" and act == "float" and (r + n) % 2 == 0:
                                 # float activations held in a Parameter
                                 cs.append({"dtype": dt, "act": act, "wq": wq, "rows": r, "brank": 1 + (r % 2), "inf": k, "outf": n, "bias": (r + k) % 2 == 1, "mode": "exact", "entry": "linear",
